@@ -216,6 +216,16 @@ def run(ctx, case):
     E = ns.System(T.get("name", "sys"), hist.make(ns, start), group=g0, rail=r0)
     for k, op in enumerate(ops[1:]):
         st, e = hist.apply(E, op, ns)
+        if st == "ok" and rng.random() < 0.3:
+            # analyses interleaved with the edits: whatever they cache must be refreshed by later analyses
+            an = rng.choice(["solve", "params", "phases", "save", "rail_rep"])
+            with H.quiet():
+                if an == "save":
+                    with H.tmpdir() as dd:
+                        H.call(E.save, os.path.join(dd, "i.json"))
+                else:
+                    H.call(getattr(E, an))
+            ctx.ev("history.interleaved_analysis")
         if st != "ok":
             ctx.count("history", "abandoned: %s rejected (%s)" % (hist.op_sig(op), type(e).__name__))
             ctx.inconc("detour op rejected: %s -> %s" % (json.dumps(op)[:200], H.exc_sig(e)))
